@@ -568,8 +568,7 @@ func c17Run(root any, ops []c17Op) *Case {
 					items = []any{}
 				}
 				if isMap {
-					// map order is unspecified: the model lists values in key order; compare as multisets
-					sort.Slice(items, func(i, j int) bool { return jstr(items[i]) < jstr(items[j]) })
+					// a loop over a map visits its items in key order (fix: ForEach sorts the keys): compared position by position
 					obs = append(obs, map[string]any{"maporder": items})
 				} else {
 					if items == nil {
@@ -633,16 +632,6 @@ func c17Key(ops []c17Op, root any) string {
 
 func runC17(r *Run, replay *Case) {
 	postModel["C17"] = func(c *Case, m any) any {
-		// map iteration order: sort the model's map-order listing like the impl side
-		if arr, ok := m.([]any); ok {
-			for _, o := range arr {
-				if mm, ok := o.(map[string]any); ok {
-					if items, ok := mm["maporder"].([]any); ok {
-						sort.Slice(items, func(i, j int) bool { return jstr(items[i]) < jstr(items[j]) })
-					}
-				}
-			}
-		}
 		return m
 	}
 	if replay != nil {
